@@ -1,4 +1,4 @@
 From Coq Require Import ExtrOcamlBasic NArith List.
-From LV Require Import lib.Conv lib.Bytes model.Codec model.IdOrder.
+From LV Require Import lib.Conv lib.Bytes model.Codec model.IdOrder model.EncHist.
 Extraction "model.ml" conv_roots be le unbe_k unle_k event_id id_epoch id_lamport
-  triple_compare lex_compare cmp_to_N brun bspec builder0 less_ids id_sort tless triples_sorted.
+  triple_compare lex_compare cmp_to_N brun bspec builder0 less_ids id_sort tless triples_sorted hrun enc_of.
